@@ -21,6 +21,10 @@ LEVEL_NOTE = ("bounded: map laws for extents 0..4 per axis (thorough 0..6), for_
               "regions with bounds 0..3 (-1..4); adaptors for every extent <= 3^3 (every shift -ext..ext, clip box, 1..3 slices, every region's range) and compositions over 3x2x2 "
               "(+ 2x3x1, 1x2x3, 2x2x3); state machine over 2x1x2 / 1x2x1 (/ 1x2x2) arrays with 2 values, histories of mutators up to K=4 (5); random parts: tables of extents "
               "<= 9x7x6, arrays <= 5x4x4 with 200-step executions; huge extents: fixed list + seeded random list, one-byte cells mapped lazily up to 2^33 cells. "
+              "Boundary families: extents with an axis at 127..129 / 255..257 / ... / 65535..65537 with coordinates at those marks, coordinates whose index is exactly 2^31-1, 2^31, 2^31+1, 2^32-1, 2^32, 2^32+1 "
+              "(TLC asserts the hit), partial products at 2^31 / 2^32, totals of 2^64-1, iteration windows across 2^31 / 2^32, for_each regions at the ends of int and across 0; adaptors on 255..257-cell axes "
+              "(shifts, clip boxes, 127..257 slices); element values at the ends of u8 / i8 / i16 / u16 / i32 / i64 / f32 / f64 through the accessors; the state machine replayed on 8 further element types "
+              "(u8, i16, i64, f32, f64 and structs of 12 / 3 / 24 bytes) with the raw external memory compared after every step and direct writes to it (Poke); two sequences used alternately. "
               "Left unconstrained: a shifted array queried where coordinate + size + shift < 0 (C++ % negative) and coordinates near 2^31 through shift / sub-box (int overflow). "
               "Outside the statement and only recorded as notes: shifts more negative than the extent, getValueRange of empty regions, numElements() of MultiSlice over slices "
               "thicker than one plane, Array3DRepeater. Trusted: TLC, the driver's table order (x fastest) and limb conversion, g++/libstdc++, ASan/UBSan")
@@ -29,7 +33,9 @@ TECHNIQUE = ("TLA+ functional specification with laws checked by TLC over the wh
              "TLC trace validation of recorded random executions")
 SPEC = os.path.join(VERIF, "spec", "array3D")
 SIG = "array3D"
-MUT = {"Set", "Clear"}
+MUT = {"Set", "Clear", "Poke"}
+ARITH_VARIANTS = ["u8", "i16", "i64", "f32", "f64"]
+STRUCT_VARIANTS = ["vec3f", "b3", "b24"]      # 12 / 3 / 24 bytes: no ordering, hence no getValueRange
 
 
 # ---------------------------------------------------------------------------
@@ -138,10 +144,12 @@ def rand_array_actions(rnd, n):
     planes = [[rnd.randrange(d[2]) for _ in range(rnd.randint(1, 3))] for _ in range(2)]
     for _ in range(n):
         x = rnd.random()
-        if x < 0.40:
-            acts.append({"a": "Set", "arg": {"c": coord(), "v": rnd.randint(1, 60)}})
+        if x < 0.34:
+            acts.append({"a": "Set", "arg": {"c": coord(), "v": rnd.choice([0, 0, -1, -60, 2147483647, -2147483647] + list(range(1, 61)))}})
+        elif x < 0.40 and mode == "ext":
+            acts.append({"a": "Poke", "arg": {"o": rnd.choice([0, tot - 1, rnd.randrange(tot)]), "v": rnd.randint(-5, 60)}})
         elif x < 0.43:
-            acts.append({"a": "Clear", "arg": {"v": rnd.randint(1, 60)}})
+            acts.append({"a": "Clear", "arg": {"v": rnd.choice([0, 0, rnd.randint(-3, 60)])}})
         elif x < 0.58:
             c = [rnd.choice([-(2 ** 31 - 1), -3, -1, 2 ** 31 - 1, d[i], d[i] + 2] + list(range(d[i])) * 2) for i in range(3)]
             acts.append({"a": "Get", "arg": {"c": c}})
@@ -440,10 +448,30 @@ def _run_cases(chk, quick, rnd, s, exe):
         st = neg.get(k)
         if not st or min(st["neg"]) == 0 or min(st["beyond"]) == 0 or st["regions_below_0"] == 0:
             raise tla.InfraError("vacuity guard: adaptor %s never queried with a negative / beyond-size coordinate on every axis: %s" % (k, st))
-    chk.require_actions(["Seq2", "Seq3", "Arr3", "ForEach", "BigSeq3", "BigSeq2", "BigArr3", "BigIter3", "Actual", "Ranges", "View"])
+    chk.require_actions(["Seq2", "Seq3", "Arr3", "ForEach", "Interleave3", "BigSeq3", "BigSeq2", "BigArr3", "BigIter3", "Actual", "Ranges", "View"])
     for cls in ("shift", "shift>ext", "sub", "acc", "slices", "shift.sub", "sub.shift", "sub.sub", "shift.shift", "slices.sub", "acc.shift", "shift.slices"):
         if not chk.cov["adaptor_cases_by_class"].get(cls):
             raise tla.InfraError("vacuity guard: no adaptor case of class %s" % cls)
+    for cls in ("shift(wide)", "sub(wide)", "slices(wide)", "acc(values)", "acc.shift(values)", "sub(values)", "non-empty(values)"):
+        if not chk.cov["adaptor_cases_by_class"].get(cls):
+            raise tla.InfraError("vacuity guard: no adaptor case of class %s" % cls)
+    # numeric boundaries: an index exactly at 2^31-1, 2^31, 2^31+1, 2^32-1, 2^32, 2^32+1 and a total of 2^64-1 must be among the cases
+    marks = {"2^31-1": 2 ** 31 - 1, "2^31": 2 ** 31, "2^31+1": 2 ** 31 + 1, "2^32-1": 2 ** 32 - 1, "2^32": 2 ** 32, "2^32+1": 2 ** 32 + 1}
+    hit = {}
+    for c in bcases:
+        if "idx" in c["exp"]:
+            for name, val in marks.items():
+                if c["exp"]["idx"] == limbs(val):
+                    hit[name + "/" + c["a"]] = hit.get(name + "/" + c["a"], 0) + 1
+        if c["exp"].get("total") == limbs(2 ** 64 - 1):
+            hit["total=2^64-1"] = hit.get("total=2^64-1", 0) + 1
+    chk.cov["boundary_indices_hit"] = hit
+    for name in marks:
+        for op in ("BigSeq3", "BigArr3"):
+            if not hit.get(name + "/" + op):
+                raise tla.InfraError("vacuity guard: no %s case with index %s" % (op, name))
+    if not hit.get("total=2^64-1"):
+        raise tla.InfraError("vacuity guard: no extent with 2^64-1 cells")
     for cls in ("2^31..2^32", "above2^32"):
         if not chk.cov["huge_extent_cases_by_class"].get(cls):
             raise tla.InfraError("vacuity guard: no huge-extent case of class %s" % cls)
@@ -454,12 +482,28 @@ def _run_machine(chk, quick, rnd, s, exe, gen_result):
     # 5. the ActualArray3D state machine with live views: spec -> code
     hs, info, ag = gen_result
     chk.count_actions(hs)
-    chk.require_actions(["New", "Set", "Clear", "Get", "Range", "RangeWhole", "ViewShift", "ViewSub", "ViewAcc", "ViewSlices"])
+    chk.require_actions(["New", "Set", "Clear", "Poke", "Get", "Range", "RangeWhole", "ViewShift", "ViewSub", "ViewAcc", "ViewSlices"])
     chk.cov["generation_Array3D"] = info
     n, wall, _ = replay_chunked(chk, exe, hs, "c17-adt", SIG + "/ActualArray3D", 500, 3000)
     chk.log("ActualArray3D + views: %d histories replayed (%d mismatching) in %.1fs" % (len(hs), n, wall))
     chk.cov["distinct_nontrivial"] += adtcheck._nontrivial_distinct(hs, MUT)
     chk.add_sample({"kind": "history", "object": "ActualArray3D", "steps": hs[len(hs) // 2][:6]})
+
+    # element type variants (narrower / wider than int, floats, structs of 3 / 12 / 24 bytes): the transition cover and a
+    # sample of the walks; for the struct types the steps that need an ordering (value ranges, views with their range) are
+    # left out of the histories - they are reading steps, so what remains is still a behaviour of the specification
+    cover = [h for h in hs if len(h) <= 6]
+    sample = cover[::6 if quick else 3] + [h for h in hs if len(h) > 6][:100 if quick else 1000]
+    plain = {"New", "Set", "Clear", "Poke", "Get"}
+    chk.cov["type_variants"] = {}
+    for variant in ARITH_VARIANTS + STRUCT_VARIANTS:
+        vh = sample if variant in ARITH_VARIANTS else [[st for st in h if st["a"] in plain] for h in sample]
+        n, wall = adtcheck.replay(chk, exe, vh, "c17-adt-" + variant, SIG + "/ActualArray3D<%s>" % variant, isolate=500, meta={"variant": variant})
+        chk.cov["type_variants"][variant] = len(vh)
+        chk.cov["distinct_nontrivial"] += adtcheck._nontrivial_distinct(vh, MUT)
+        if n:
+            chk.log("ActualArray3D<%s>: %d of %d histories mismatch" % (variant, n, len(vh)))
+    chk.log("element type variants %s: %d histories each" % (", ".join(ARITH_VARIANTS + STRUCT_VARIANTS), len(sample)))
 
     # 6. code -> spec: recorded random executions validated by TLC
     nexec = 20 if quick else 150
